@@ -788,6 +788,40 @@ func (x *Exec) evalCall(env *SpecEnv, e ECall) Val {
 			}
 		}
 	}
+	if u, ok := x.DB.UFs[e.Fun]; ok {
+		if len(u.Params) != len(e.Args) {
+			panic(specErr("uf %s takes %d arguments", e.Fun, len(u.Params)))
+		}
+		uenv := &SpecEnv{x: x}
+		if sp, ok := x.P.SSA[u.Pkg]; ok {
+			uenv.pkg = sp.Pkg
+		} else {
+			uenv.pkg = env.pkg
+		}
+		var sorts []string
+		var terms []Term
+		for i, prm := range u.Params {
+			pt := x.resolveType(uenv, prm.Type)
+			a := x.coerce(x.evalVal(env, e.Args[i]), pt)
+			if sl, isSlice := pt.Underlying().(*types.Slice); isSlice {
+				// by content: (backing array, offset, length) in the current state
+				es := x.S.SortOf(sl.Elem())
+				hn, hs := x.S.ElemHeapT(sl.Elem())
+				h := x.heapGet(env.cur, hn, hs)
+				ref, off, ln, _ := x.sliceParts(a.T)
+				asrt := arraySort(x.S.Idx(), es)
+				sorts = append(sorts, asrt, x.S.Idx(), x.S.Idx())
+				terms = append(terms, Term{app("select", h, ref), asrt}, off, ln)
+				continue
+			}
+			sorts = append(sorts, x.S.SortOf(pt))
+			terms = append(terms, a.T)
+		}
+		rt := x.resolveType(uenv, u.Ret)
+		name := "uf$" + sanitize(u.Name)
+		x.declUF(name, fmt.Sprintf("(%s) %s", strings.Join(sorts, " "), x.S.SortOf(rt)))
+		return Val{T: Term{app(name, terms...), x.S.SortOf(rt)}, Typ: rt}
+	}
 	if p, ok := x.DB.Preds[e.Fun]; ok {
 		if env.predDepth > 8 {
 			panic(specErr("predicate expansion too deep at %s", e.Fun))
